@@ -17,6 +17,10 @@ func (t *WeightedMerkleTrie) GetPath(keys [][]byte) ([]byte, error) {
 
 	if t.root != nil {
 		if node, ok := t.root.(*hashNode); ok {
+			if t.db == nil {
+				// a partial trie built from an export has no database to load its root from
+				return nil, errors.New("database is not set")
+			}
 			data, err := t.db.Get(node.Hash())
 			if err != nil {
 				return nil, err
